@@ -34,8 +34,12 @@ def split(args: Sequence[str]) -> tuple[Sequence[str], Sequence[str]]:
         if a in ["-m", "--module"]:
             i = min(i + 1, len(args) - 1)
             break
+        elif a.startswith("--module=") or (a.startswith("-m") and not a.startswith("--")):
+            # the module name is attached to the flag, eg: --module=pytest or -mpytest
+            break
         elif a.startswith("-"):
-            in_flag = True
+            # the flag's value is the next arg, unless it is attached to the flag, eg: --db_path=x or -dx
+            in_flag = "=" not in a and (a.startswith("--") or len(a) == 2)
         elif not in_flag:
             break
         else:
